@@ -7,6 +7,7 @@ open C07Model
 open C06Model
 open C06InitModel
 open C06SencModel
+open C06TrexModel
 
 let e = C07Aes.aes128_encrypt
 let d = C07Aes.aes128_decrypt
@@ -219,6 +220,16 @@ let () =
              | a, b -> "encode-" ^ (if res_name a <> "ok" then res_name a else res_name b))
           | a, b -> if res_name a <> "ok" then res_name a else res_name b in
         check id "senc/saiz/saio bytes + ParseReadSenc" model obs
+      | ["T"; id; count; trun; tfhd; trexd; paylen; obs] ->
+        let g = { sg_count = n_of_int (int_of_string count);
+                  sg_trun = (if trun = "-" then None else if trun = "empty" then Some [] else Some (L.map n_of_int (ints_of_csv trun)));
+                  sg_tfhd = (if tfhd = "-" then None else Some (n_of_int (int_of_string tfhd))) } in
+        let payload = L.init (int_of_string paylen) (fun _ -> n_of_int 0) in
+        let one trex =
+          res_string (fun (samples, rest) ->
+              csv_of_ints (L.map L.length samples) ^ "/" ^ string_of_int (L.length rest))
+            (split_samples (sample_sizes trex g) payload) in
+        check id "GetFullSamples sizes" (one (Some (n_of_int (int_of_string trexd))) ^ "|" ^ one None) obs
       | ["M"; id; data; obs] ->
         let box = bytes_of_hex data in
         let model = S.concat "|" (L.map (fun p -> res_string senc_state (senc_parse (n_of_int p) box)) [0; 8; 16; 5]) in
